@@ -84,15 +84,7 @@ impl Exec {
                 let get = |v: &Vec<usize>| -> Vec<(u64, f64)> { v.iter().map(|i| pairs[*i]).collect() };
                 match &plan.events[i - 1] {
                     WEv::Item(k) => node.item(pairs[*k].0, pairs[*k].1),
-                    WEv::WSet(v) => {
-                        let mut u = vec![];
-                        for k in v {
-                            if !u.contains(k) {
-                                u.push(*k);
-                            }
-                        }
-                        node.wset(&get(&u))
-                    }
+                    WEv::WSet(v) => node.wset(&get(v)),
                     WEv::IdxMap(v) => node.idxmap(&get(v)),
                     WEv::HMap { items, hseed } => {
                         node.hmap(&get(items), *hseed ^ salt.wrapping_mul(0x9E37_79B9_7F4A_7C15));
@@ -307,7 +299,7 @@ impl Scenario for Replicas {
         };
         let inline_replicas = rng.urange(1, 2);
         let thread_replicas = rng.urange(1, 3);
-        let pfrac = if tier == Tier::Thorough { 0.1 } else { 0.04 };
+        let pfrac = if tier == Tier::Thorough { 0.2 } else { 0.1 };
         let process_replicas = if rng.chance(pfrac) { (0..rng.urange(1, 2)).map(|_| rng.below(256) as u8).collect() } else { vec![] };
         let total = inline_replicas + thread_replicas;
         let n = nsteps(&job);
